@@ -18,7 +18,14 @@ static void run(const std::vector<std::string> & t)
   for (size_t d = 0; d < DIM; ++d) {lo[d] = static_cast<S>(vh::rf(t[i++]));}
   for (size_t d = 0; d < DIM; ++d) {hi[d] = static_cast<S>(vh::rf(t[i++]));}
   M m(typename M::IntervalType(lo, hi), r);
-  RayCasting<S, DIM> rc(&m);
+  // three ways of getting a caster on grid m, chosen per case; all must behave alike: constructed on it; default-constructed
+  // and given the grid through the setter; constructed on ANOTHER grid (other resolution and extent) and re-targeted
+  M other(typename M::IntervalType(lo * S(0.5), hi * S(0.5) + P::Constant(r)), r * S(3));
+  RayCasting<S, DIM> rcA(&m), rcB, rcC(&other);
+  const size_t way = t.size() % 3;
+  if (way == 1) {rcB.setGridIndexMapping(&m);}
+  if (way == 2) {rcC.setGridIndexMapping(&m);}
+  RayCasting<S, DIM> & rc = way == 0 ? rcA : (way == 1 ? rcB : rcC);
   auto n = m.getNumberOfCellsAlongAxes();
   std::cout << "N";
   for (size_t d = 0; d < DIM; ++d) {std::cout << " " << static_cast<long long>(n[d]);}
